@@ -290,6 +290,73 @@ Proof.
   - intros x Hx. now apply nothing_else_touched.
 Qed.
 
+(* ---------------------------------------------------------------- when no file can be placed *)
+Fixpoint has_file_list (l : list (str * node)) : bool :=
+  match l with
+  | [] => false
+  | (_, c) :: r => has_file c || has_file_list r
+  end.
+
+Lemma has_file_dir es : has_file (Dir es) = has_file_list es.
+Proof. reflexivity. Qed.
+
+Lemma visit_file_unplaceable k (p : path) i pm c d :
+  placeable k = false -> visit k (p, File i pm c) d = RErr.
+Proof.
+  destruct k as [m l f lo]. unfold placeable, visit, copy_or_link.
+  cbn [link link_ok fallback mode fst snd].
+  destruct l, lo, f; cbn; intros H; try discriminate; reflexivity.
+Qed.
+
+Lemma run_walk_not_done k :
+  placeable k = false ->
+  forall l d, (exists (p : path) i pm c, In (p, File i pm c) l) -> forall d', run_walk k l d <> WDone d'.
+Proof.
+  intros Hp. induction l as [|e r IH]; intros d [p [i [pm [c Hin]]]] d'.
+  - destruct Hin.
+  - rewrite run_walk_cons. destruct Hin as [->|Hin].
+    + now rewrite visit_file_unplaceable.
+    + destruct (visit k e d); try discriminate. apply IH. eauto.
+Qed.
+
+Lemma has_file_walk : forall n,
+  has_file n = true -> exists (p : path) i pm c, In (p, File i pm c) (walk n).
+Proof.
+  induction n as [i pm c|t|es IH] using node_ind2; intros H.
+  - exists [], i, pm, c. now left.
+  - discriminate.
+  - rewrite has_file_dir in H. rewrite walk_dir.
+    assert (exists (p : path) i pm c, In (p, File i pm c) (walk_list es)) as [p [i [pm [c Hin]]]].
+    { induction es as [|[x c0] r IHr]; [discriminate|].
+      cbn [has_file_list] in H. cbn [walk_list]. inversion IH as [|e l Hc Hr]; subst. cbn [snd] in Hc.
+      apply orb_true_iff in H as [H|H].
+      - destruct (Hc H) as [p [i [pm [c Hin]]]]. exists (x :: p), i, pm, c.
+        apply in_or_app. left. change (x :: p, File i pm c) with (pfx x (p, File i pm c)).
+        now apply in_map.
+      - destruct (IHr Hr H) as [p [i [pm [c Hin]]]]. exists p, i, pm, c. apply in_or_app. now right. }
+    exists p, i, pm, c. now right.
+Qed.
+
+(* hard-linking without fallback where link(2) does not work: a tree that holds a regular file is
+   never reported as copied, whatever the destination held *)
+Theorem unplaceable_never_done k w a b src :
+  assoc a w = Some src -> placeable k = false -> has_file src = true ->
+  forall dst, copy_top k w a b <> Done dst.
+Proof.
+  intros Ha Hp Hf dst. unfold copy_top. rewrite Ha. destruct src as [i pm c|es|t].
+  - change (copy_or_link k [] (File i pm c) (open_node (S (length w)) w (File i pm c)) (assoc b w))
+      with (visit k ([], File i pm c) (assoc b w)).
+    now rewrite visit_file_unplaceable.
+  - destruct (run_walk k (walk (Dir es)) (assoc b w)) as [[n|]| |] eqn:E; try discriminate.
+    exfalso. apply (run_walk_not_done k Hp (walk (Dir es)) (assoc b w) (has_file_walk _ Hf) (Some n)). exact E.
+  - discriminate.
+Qed.
+
+(* whatever the destination held before: when the call succeeds, nothing but `to` has changed *)
+Theorem only_destination_written (k : cfg) w (a b : str) dst :
+  copy_top k w a b = Done dst -> forall x, x <> b -> assoc x (set b dst w) = assoc x w.
+Proof. intros _ x Hx. now apply nothing_else_touched. Qed.
+
 (* ---------------------------------------------------------------- tied to the source text --- *)
 (* RecursiveCopy and RecursiveLink (argument tuples regenerated from copy.go) can always place a
    file: RecursiveCopy does not link, RecursiveLink falls back. *)
